@@ -60,6 +60,15 @@ func plainBlock(p *path, extra uint32, dt int64) *wire.MsgBlock {
 	return blk
 }
 
+// caseNonce makes the late parent block of the orphan contexts unique per case (instances are shared).
+func caseNonce(r recipe) uint32 {
+	h := uint32(2166136261)
+	for _, c := range []byte(r.String()) {
+		h = (h ^ uint32(c)) * 16777619
+	}
+	return h % 1000000 * 1000
+}
+
 func findMutator(name string) *mutator {
 	for i := range mutators {
 		if mutators[i].name == name {
@@ -102,6 +111,22 @@ func buildScenario(r recipe) *scenario {
 		s1 := plainBlock(parent, 213, blockSpacing+3)
 		sc.dels = append(sc.dels, delivery{m1, false}, delivery{m2, false}, delivery{s1, false})
 		s = scen{n + 3, n + 2, 1}
+	case "orphan2":
+		// the candidate itself takes the orphan path: its parent X is a sibling of the tip that arrives later,
+		// so the candidate is then connected by processOrphans through a reorganisation
+		side := newPath(v)
+		for _, b := range bs.blocks[:n-1] {
+			side.apply(b)
+		}
+		parent = side
+		x := plainBlock(parent, 400+caseNonce(r), blockSpacing+11)
+		after = append(after, delivery{x, true})
+		s = scen{n + 1, n, 1}
+	case "orphan3":
+		// as orphan2, but the late parent X extends the tip: the candidate is connected by processOrphans directly
+		x := plainBlock(parent, 400+caseNonce(r), blockSpacing+11)
+		after = append(after, delivery{x, true})
+		s = scen{n + 2, n + 1, 1}
 	case "fork":
 		// an unrelated side chain of equal length off block n-2, plus an unrelated orphan, come first
 		side := newPath(v)
@@ -143,7 +168,7 @@ func buildScenario(r recipe) *scenario {
 		return plainBlock(q, 301, blockSpacing)
 	}
 	switch r.ctx {
-	case "tip", "fork", "tmpl":
+	case "tip", "fork", "tmpl", "orphan2", "orphan3":
 		sc.dels = append(sc.dels, delivery{sc.cand, true})
 	case "side", "side2":
 		sc.dels = append(sc.dels, delivery{sc.cand, true}, delivery{child(), true})
@@ -427,7 +452,7 @@ func Lines(seed uint64, thorough bool) []string {
 }
 
 func generate(R *core.Rand, thorough bool, emit func(class string, nontrivial bool, line string)) {
-	ctxs := []string{"tip", "side", "orphan", "fork", "side2", "tmpl"}
+	ctxs := []string{"tip", "side", "orphan", "fork", "side2", "tmpl", "orphan2", "orphan3"}
 	for vi, v := range variants {
 		for _, m := range mutators {
 			if !m.applies(v, v.baseLen()+1) {
